@@ -1,7 +1,7 @@
 """C20 — text drawings of circuits.  Correspondence of lean/QipVerif/Model/Render.lean with
 QubitCircuit.draw("text", **style) (exact string equality of every printed row), plus the
 property's clauses evaluated directly on the strings the real code prints (the oracle)."""
-import ast, contextlib, io, itertools, os, re, tempfile, time
+import ast, atexit, contextlib, io, itertools, os, re, shutil, tempfile, time
 from fractions import Fraction
 
 from vlib.core import PropertyCheck, TranslatorError
@@ -171,17 +171,68 @@ def impl_draw(w, via="draw"):
     return "ok", out
 
 
-def impl_save(w):
-    """Rows written by TextRenderer.save (draw(..., save=True))."""
-    qc = build(w)
-    with tempfile.TemporaryDirectory(prefix="c20-") as d:
-        path = os.path.join(d, "circ")
-        with contextlib.redirect_stdout(io.StringIO()):
-            qc.draw("text", save=True, file_path=path, **style_kwargs(w["style"]))
-        txt = open(path + ".txt", encoding="utf-8").read().split("\n")
+# ---- the file output path: QubitCircuit.draw('text', save=True, file_path=...) and TextRenderer(qc).layout(); .save(path)
+_SAVE = {"dir": None, "n": 0}
+
+
+def _save_path():
+    """a fresh file name (without the .txt that save() appends) in this process's private temp dir"""
+    if _SAVE["dir"] is None or not os.path.isdir(_SAVE["dir"]):
+        _SAVE["dir"] = tempfile.mkdtemp(prefix="c20-save-")
+        atexit.register(save_cleanup)
+    _SAVE["n"] += 1
+    return os.path.join(_SAVE["dir"], "circ%d" % _SAVE["n"])
+
+
+def save_cleanup():
+    if _SAVE["dir"] is not None:
+        shutil.rmtree(_SAVE["dir"], ignore_errors=True)
+        _SAVE["dir"] = None
+
+
+def _read_saved(path):
+    """the lines of the file save() wrote (and the file is removed); None if there is no file"""
+    f = path + ".txt"
+    if not os.path.exists(f):
+        return None
+    with open(f, encoding="utf-8") as fh:
+        txt = fh.read().split("\n")
+    os.remove(f)
     if txt and txt[-1] == "":
         txt.pop()
     return txt
+
+
+def impl_draw_saved(w, via="draw"):
+    """One rendering through the file output path: (verdict, printed rows, lines of the saved file).
+    via = "draw": qc.draw("text", save=True, file_path=...);  "layout": r = TextRenderer(qc, **style); r.layout(); r.save(path)"""
+    try:
+        qc = build(w)
+    except Exception as e:
+        return "build:" + type(e).__name__ + ":" + str(e)[:80], None, None
+    buf = io.StringIO()
+    path = _save_path()
+    try:
+        with contextlib.redirect_stdout(buf):
+            if via == "draw":
+                qc.draw("text", save=True, file_path=path, **style_kwargs(w["style"]))
+            else:
+                from qutip_qip.circuit.text_renderer import TextRenderer
+                r = TextRenderer(qc, **style_kwargs(w["style"]))
+                r.layout()
+                r.save(path)
+    except Exception as e:
+        _read_saved(path)
+        return classify_exc(e), None, None
+    out = buf.getvalue().split("\n")
+    if out and out[-1] == "":
+        out.pop()
+    return "ok", out, _read_saved(path)
+
+
+def impl_save(w):
+    """Rows written by TextRenderer.save (draw(..., save=True))."""
+    return impl_draw_saved(w)[2]
 
 
 # ------------------------------------------------------------------------------------------ model side
@@ -763,7 +814,11 @@ class C20(PropertyCheck):
                   "the code by exact string equality of every printed row: exhaustive over every placed single element on <= 4 "
                   "qubits (with and without classical controls), a matrix stream (kind x position of controls x contiguity x "
                   "classical controls x neighbouring measurements x style) with enforced coverage cells, random circuits, wide "
-                  "registers (10-14 qubits, thorough: up to 24), malformed circuits; exceptions compared by class.")
+                  "registers (10-14 qubits, thorough: up to 24), malformed circuits; exceptions compared by class. Every case is "
+                  "drawn through the file output path draw('text', save=True, file_path=<private temp dir>): the printed rows AND "
+                  "the lines of the saved file are compared with the model's picture; TextRenderer(qc).layout(); .save(path) on a "
+                  "further stream (half of it forced to have classical wires); the string oracle judges the printed and both "
+                  "saved pictures.")
     level_note = ("Full strength for the repaired variant; on /repo as it is now (C20-1..3 applied, C20-4 not) the only valid "
                   "circuits not drawn are those with a measurement without classical_store (TypeError; theorem "
                   "unstored_measurement_not_drawn, proposed fix fixes/C20-4.patch, check green on both trees). "
@@ -779,7 +834,8 @@ class C20(PropertyCheck):
         "lean/QipVerif/Model/Render.lean as a transcription of text_renderer.py / base_renderer.py "
         "(Python str = list of code points, += on per-wire strings = list append), validated by this correspondence "
         "(exact equality of every printed row; the variant sent to the driver is read from the tree's source)",
-        "py/props/c20.py (harness: stdout capture of draw('text'), exception classes {IndexError, ValueError, TypeError}; "
+        "py/props/c20.py (harness: stdout capture of draw('text', save=True) and the lines of the file it writes into a private "
+        "temp dir (removed afterwards), exception classes {IndexError, ValueError, TypeError}; "
         "detect_variant: ast comparison of the five box-span tests, the inside-node test, the GLOBALPHASE test and the three "
         "classical_store tests with the known old/new forms - anything else is reported as 'not recognised' and fails the check; "
         "ast scans of the StyleConfig fields and of the gate / measurement attributes the renderer reads)",
@@ -798,7 +854,7 @@ class C20(PropertyCheck):
             "qubits; malformed stream: out-of-range wires, empty target lists, multi-target measurements, short/long/empty "
             "wire_label, negative end_wire_ext, glyphs inside labels; every required (kind, control positions, target shape, "
             "classical control) cell, every kind under each style option and every kind on >= 10 qubits must occur in the run "
-            "(else a coverage disagreement); non-trivial = at least one operation spanning >= 2 wires or >= 2 operations")
+            "(else a coverage disagreement); each case compares model picture = printed rows = saved file; non-trivial = at least one operation spanning >= 2 wires or >= 2 operations")
 
     # ---------------------------------------------------------------------------------
     def regenerate(self, ctx):
@@ -847,7 +903,7 @@ class C20(PropertyCheck):
         outs = ctx.driver("drv_render").run(lines)
         for w, o in zip(cases, outs):
             mst, mrows = dec_rows(o)
-            ist, irows = impl_draw(w)
+            ist, irows, isaved = impl_draw_saved(w)      # draw("text", save=True, file_path=<private temp dir>)
             nontrivial = len(w["ops"]) >= 2 or any(
                 (o_["k"] in "mG") or len(o_["t"]) + len(o_["c"] or []) >= 2 for o_ in w["ops"])
             cells = set(cell_of(o_) for o_ in w["ops"])
@@ -877,6 +933,13 @@ class C20(PropertyCheck):
                 res.disagree(w, {"row": k, "text": mrows[k] if k < len(mrows) else None, "nrows": len(mrows)},
                              {"row": k, "text": irows[k] if k < len(irows) else None, "nrows": len(irows)},
                              "printed rows differ (first differing row shown)", w)
+            elif mst == "ok" and mrows != isaved:
+                sv = isaved if isaved is not None else []
+                k = next((i for i, (a, b) in enumerate(zip(mrows, sv)) if a != b), min(len(mrows), len(sv)))
+                res.disagree(w, {"row": k, "text": mrows[k] if k < len(mrows) else None, "nrows": len(mrows)},
+                             {"row": k, "text": sv[k] if k < len(sv) else None, "nrows": len(sv), "file": isaved is not None},
+                             "lines of the file written by draw('text', save=True) differ from the picture "
+                             "(first differing line shown; the printed rows agree with the model)", w)
 
     def correspondence(self, ctx, res):
         rng = ctx.rng
@@ -935,14 +998,28 @@ class C20(PropertyCheck):
         # 3. malformed / unusual stream
         n = 25000 if ctx.thorough else 2500
         self._compare(ctx, res, [rand_circuit(rng, wild=True, maxN=4, maxC=2, maxops=5) for _ in range(n)], "wild")
-        # 4. entry points: TextRenderer(qc).layout() prints the same, save() writes the same
-        for _ in range(40 if ctx.thorough else 12):
-            w = rand_circuit(rng, wild=False, maxN=4, maxops=5)
+        # 4. entry points: draw("text") = TextRenderer(qc).layout() (printed), and r.layout(); r.save(path) writes the
+        #    picture the model has (every stream above went through draw("text", save=True)); half of the cases are
+        #    forced to have classical wires
+        ep = []
+        for k in range(1500 if ctx.thorough else 300):
+            w = rand_circuit(rng, wild=False, maxN=5, maxops=5)
+            if k % 2 and w["C"] == 0 and "wire_label" not in w["style"]:
+                w["C"] = 1 + k % 3
+                w["ops"].append({"k": "m", "t": [k % w["N"]], "s": k % w["C"]})
+            ep.append(w)
+        outs = ctx.driver("drv_render").run([model_line(w) for w in ep])
+        for w, o in zip(ep, outs):
+            mst, mrows = dec_rows(o)
             st, rows = impl_draw(w)
-            st2, rows2 = impl_draw(w, via="layout")
-            res.case({"entry": w}, nontrivial=False, tags=["stream=entry-points"])
-            if (st, rows) != (st2, rows2) or (st == "ok" and impl_save(w) != rows):
-                res.disagree(w, "draw()", "layout()/save()", "entry points print different rows", w)
+            st2, rows2, saved2 = impl_draw_saved(w, via="layout")
+            res.case({"entry": w}, nontrivial=False, tags=["stream=entry-points", f"C={w['C']}"])
+            if (st, rows) != (st2, rows2):
+                res.disagree(w, {"draw": st}, {"layout": st2}, "draw('text') and TextRenderer.layout() print different rows", w)
+            elif (mst, mrows) != (st2, saved2):
+                res.disagree(w, {"verdict": mst, "rows": mrows}, {"verdict": st2, "saved": saved2},
+                             "lines of the file written by TextRenderer.layout(); .save(path) differ from the picture", w)
+        save_cleanup()
         # 5. coverage obligations of the streams (only kinds the tree at hand draws are demanded)
         need = required_cells()
         if not VARIANT["measBox"]:
@@ -967,13 +1044,25 @@ class C20(PropertyCheck):
         if not in_domain(w):
             # outside the quantifier of the property: only "the two sides agree" is claimed there
             return False, "input outside the property's domain (malformed stream)"
-        st, rows = impl_draw(w)
+        st, rows, saved = impl_draw_saved(w)                 # qc.draw("text", save=True, file_path=<private temp dir>)
         if st != "ok":
             return True, f"drawing fails with {st}"
         bad = oracle_rows(w, rows)
         if bad:
             return True, "; ".join(bad[:4])
-        return False, "well-formed drawing"
+        # the file output: the same clauses on the lines of the saved file, for both ways of writing it
+        st2, rows2, saved2 = impl_draw_saved(w, via="layout")    # r = TextRenderer(qc); r.layout(); r.save(path)
+        if st2 != "ok":
+            return True, f"TextRenderer.layout() / save() fails with {st2}"
+        for how, sv in (("draw('text', save=True)", saved), ("TextRenderer.layout(); .save(path)", saved2)):
+            if sv is None:
+                return True, f"saved file [{how}]: no file written"
+            bad = oracle_rows(w, sv)
+            if sv != rows:
+                bad.insert(0, "the saved picture differs from the printed one")
+            if bad:
+                return True, f"saved file [{how}]: " + "; ".join(bad[:4])
+        return False, "well-formed drawing (printed and saved)"
 
     def _systematic(self):
         for N, C, op in single_gate_cases(4, 1):
